@@ -213,7 +213,7 @@ def crashes():
     behs, meta = [], {}
     for i, point in enumerate(["description.rewrite.created", "description.rewrite.encoded", "description.rewrite.synced",
                                "description.rewrite.closed", "description.rewrite.renamed"]):
-        for (e, m) in (("group", "PUT"), ("user", "PUT"), ("password", "PUT")):
+        for (e, m) in (("group", "PUT"), ("user", "PUT"), ("password", "PUT"), ("ngroup", "PUT")):   # ngroup: the creation of a definition
             n = "c%d-%s" % (i, e)
             st = [request(n + "-before", "GET", "group", "root"), request(n, m, e, "root"), ["sleep", 30], ["files"],
                   request(n + "-after", "GET", "group", "root"), request(n + "-user", "GET", "user", "root"), ["files"]]
